@@ -67,6 +67,7 @@ func runExplain(f Finding, repoDir, outDir string) int {
 		fmt.Println("ERROR:", err)
 		return 2
 	}
+	theProgram = prog
 	c := &Ctx{P: prog, Tier: "thorough", Prop: f.Property}
 	for _, rf := range append(append([]RuleFunc{}, spec.Rules...), spec.ThoroughRules...) {
 		res, fail := runRule(c, rf)
